@@ -5,6 +5,7 @@ package h
 
 import (
 	"fmt"
+	"math/big"
 	"strings"
 
 	"github.com/db47h/decimal"
@@ -408,3 +409,22 @@ func (s Spec) Build() *decimal.Decimal {
 	}
 	return d
 }
+
+var (
+	log10of2, _ = new(big.Rat).SetString("0.301029995663981195213738894724493026768189881462108541310427461127108189274424509486927252118186172040684")
+	log2of10, _ = new(big.Rat).SetString("3.321928094887362347870319429489390175864831393024580612054756395815934776608625215850139743359370155099657")
+)
+
+func ceilMul(p uint64, c *big.Rat) uint64 {
+	if p == 0 {
+		return 0
+	}
+	prod := new(big.Rat).Mul(c, new(big.Rat).SetInt(new(big.Int).SetUint64(p)))
+	return new(big.Int).Quo(prod.Num(), prod.Denom()).Uint64() + 1 // the product is never an integer
+}
+
+// CeilLog10_2 returns ceil(p*log10(2)) exactly (100-digit constant; p < 2^64).
+func CeilLog10_2(p uint64) uint64 { return ceilMul(p, log10of2) }
+
+// CeilLog2_10 returns ceil(p*log2(10)) exactly.
+func CeilLog2_10(p uint64) uint64 { return ceilMul(p, log2of10) }
